@@ -5,6 +5,7 @@ effect-free (R3); cache replace-on-put / write-through (R4); path-scheme writer/
 agreement (R5).  Does not decide: equivalence with a model dictionary over histories.
 """
 import ast
+import re
 
 from .. import astutil as A
 from ..fa import FA
@@ -2304,6 +2305,263 @@ def check_listing_limit(ck, R):
           "listed, while the memory backend returns nothing for the same request", fa.where())
 
 
+# ---- side tables of the write-through cache follow the store ---------------------------------------------------------
+_SIDE_MODULES = ("storage_base", "storage_filesystem", "storage_memory", "storage")
+
+
+class _SideTable:
+    """A keyed table besides the modelled slots of the memory cache (or a table a cached backend class has grown) from
+    which some function ANSWERS: a value it returns, or the choice of which value it returns, depends on what the table
+    holds for a key."""
+
+    def __init__(self, cls, name, cache_owned):
+        from .memo import Table
+        self.cls, self.name, self.cache_owned = cls, name, cache_owned
+        self.t = Table(cls.qual, name, "self")
+        self.readers = []      # qualified names of the functions that answer from it
+        self._rx = re.compile(r"\.%s\b" % re.escape(name))
+
+    @property
+    def label(self):
+        return "%s.%s" % (self.cls.name, self.name)
+
+    def mentioned(self, node) -> bool:
+        return any(isinstance(n, ast.Attribute) and n.attr == self.name for n in ast.walk(node))
+
+    def in_text(self, text) -> bool:
+        return bool(self._rx.search(text))
+
+    def in_deps(self, deps) -> bool:
+        return any(d.startswith("attr:") and d.endswith("." + self.name) for d in deps)
+
+
+def _side_answers(fa: FA, tb: _SideTable, reads) -> bool:
+    """does a value `fa` returns -- or which of its returns is taken -- depend on a keyed look-up in the table?"""
+    if not reads:
+        return False
+    for r in fa.returns():
+        if r.value is None or not fa.nodes(r):
+            continue
+        if any(fa.inside(n, r) for (_st, _k, n) in reads):
+            return True
+        try:
+            if tb.in_deps(fa.deps(r.value)):
+                return True
+            conds = fa.conditions(r)
+        except AnalysisError:
+            continue
+        if conds and any(tb.in_text(t_) for c_ in conds for (t_, _p) in c_):
+            return True
+    return False
+
+
+def _side_tables(ck, cm):
+    """The answering side tables: fields of the cache class outside the roles of the cache model (resident map, weak
+    table, recency queue, usage counter, budget, locks), and fields of the cached backend classes that the reference
+    inventory does not know."""
+    from ..inline import new_tables
+    from .memo import _uses
+    repo = ck.repo
+    roles = {cm.map, cm.queue, cm.counter, cm.budget} | ({cm.refs} if cm.refs else set()) | {f for (f, _k) in cm.locks}
+    cands = []
+
+    def stored_fields(cls):
+        out = set(cls.fields)
+        for m in cls.methods.values():
+            for n in ast.walk(m.node):
+                if isinstance(n, ast.Attribute) and isinstance(n.ctx, ast.Store) and isinstance(n.value, ast.Name) and n.value.id in ("self", "cls"):
+                    out.add(n.attr)
+        return out
+
+    for f in sorted(stored_fields(cm.cls) - roles):
+        cands.append(_SideTable(cm.cls, f, True))
+    new = new_tables(repo)
+    base = repo.cls(BACKEND_BASE)
+    for cls in [base] + [c for c in repo.subclasses(base, strict=True)]:
+        for f in sorted(stored_fields(cls)):
+            if "%s:self.%s" % (cls.qual, f) in new or "%s:%s" % (cls.qual, f) in new:
+                cands.append(_SideTable(cls, f, False))
+    out = []
+    for tb in cands:
+        for fi in repo.all_funcs():
+            if fi.parent is not None or fi.node is None or fi.module.name not in _SIDE_MODULES or not tb.mentioned(fi.node):
+                continue
+            fa = FA(ck, fi)
+            reads, _w, _rm = _uses(fa, tb.t)
+            if _side_answers(fa, tb, reads):
+                tb.readers.append(fi.qual)
+        if tb.readers:
+            out.append(tb)
+    return out
+
+
+def _side_excuse(tb: _SideTable):
+    """branch literals under which an event may leave the table alone: the key is not in it; the table does not exist or is
+    empty; there is no cache at all (for a table of the cache); the backend is read-only (nothing was written)"""
+    absent = re.compile(r" in [\w\.]*\b%s$" % re.escape(tb.name))
+    # ... or the table itself does not exist / holds nothing (`T is None`, `not T`, `len(T) == 0`)
+    none = re.compile(r"^[\w\.]*\b%s is None$" % re.escape(tb.name))
+    empty = re.compile(r"^(?:[\w\.]*\b%s|len\([\w\.]*\b%s\)|bool\([\w\.]*\b%s\))$" % ((re.escape(tb.name),) * 3))
+
+    def excuse(t, p):
+        return ((not p) and bool(absent.search(t))) or (p and bool(none.search(t))) or ((not p) and bool(empty.search(t))) \
+            or (tb.cache_owned and _no_cache(t, p)) or (p and t == "self.read_only")
+    return excuse
+
+
+def _side_touch_nodes(ck, cm, fa: FA, tb: _SideTable, tainted, removal_only, allow_sweep, depth, partial=None):
+    """CFG nodes of `fa` that bring the table up to date for the key the event is about: a removal (or, unless
+    `removal_only`, a store) under a key derived from the parameters `tainted`; the table emptied or rebound as a whole;
+    (`allow_sweep`) a loop over the table that removes what it selects; a call of a method of the cache / the backend
+    that does one of these on each of its normal paths, for the arguments it is handed here."""
+    from .memo import _uses
+    _r, w, rm = _uses(fa, tb.t)
+    patoms = {"param:" + p_ for p_ in tainted}
+    out = []
+    for (st, key, node) in rm + ([] if removal_only else w):
+        ids = fa.nodes(node)
+        if not ids or not fa.unconditional(node):
+            continue
+        if key is None:
+            if isinstance(node, ast.Call) and A.call_attr(node) == "clear":
+                out += ids
+            continue
+        swept = False
+        if allow_sweep:
+            # a loop over (a selection from) the table that removes what it visits: the loop as a whole is the removal
+            lp = fa.enclosing(node, (ast.For, ast.While))
+            while lp is not None and not swept:
+                head = lp.iter if isinstance(lp, ast.For) else lp.test
+                try:
+                    over = tb.mentioned(head) or tb.in_deps(fa.deps(head))
+                except AnalysisError:
+                    over = tb.mentioned(head)
+                if over:
+                    out += fa.nodes(lp)
+                    swept = True
+                lp = fa.enclosing(lp, (ast.For, ast.While))
+        if swept:
+            continue
+        try:
+            keyed = bool(set(fa.deps(key)) & patoms)
+        except AnalysisError:
+            keyed = False
+        if keyed:
+            out += ids
+    # the table rebound as a whole: emptied, or rebuilt without what is to go
+    for st in fa.stmts((ast.Assign, ast.AnnAssign)):
+        tg = st.targets if isinstance(st, ast.Assign) else [st.target]
+        if any(isinstance(t_, ast.Attribute) and t_.attr == tb.name for t_ in tg) and getattr(st, "value", None) is not None:
+            out += fa.nodes(st)
+    # `T -= {key}` (a removal) / `T |= {key}` (a store)
+    for st in fa.stmts(ast.AugAssign):
+        if isinstance(st.target, ast.Attribute) and st.target.attr == tb.name and fa.nodes(st) and (isinstance(st.op, ast.Sub) or not removal_only):
+            try:
+                if set(fa.deps(st.value)) & patoms:
+                    out += fa.nodes(st)
+            except AnalysisError:
+                pass
+    if depth > 0:
+        base = ck.repo.cls(BACKEND_BASE)
+        for c in fa.calls():
+            if not fa.nodes(c) or not fa.unconditional(c):
+                continue
+            try:
+                cands, _how = ck.cg.resolve(c, fa.fi)
+            except Exception:  # noqa
+                cands = []
+            cands = [m for m in (cands or []) if m.node is not None and m is not fa.fi and m.cls is not None
+                     and (m.cls is cm.cls or ck.repo.is_subclass(m.cls, base) or m.cls is tb.cls)]
+            if not cands and A.call_attr(c) in cm.cls.methods and _xt(fa, A.call_recv(c), c).endswith("._memory_cache"):
+                cands = [cm.cls.methods[A.call_attr(c)]]
+            if not cands:
+                continue
+            good = True
+            for m in cands:
+                bound = _bind(c, m.params)
+                sub = set()
+                for (pn, a) in bound.items():
+                    try:
+                        if set(fa.deps(a, fa.nodes(c)[0])) & patoms:
+                            sub.add(pn)
+                    except AnalysisError:
+                        pass
+                if not _side_always(ck, cm, m, tb, sub, removal_only, allow_sweep, depth - 1, partial):
+                    good = False
+            if good:
+                out += fa.nodes(c)
+    return out
+
+
+def _side_always(ck, cm, fi, tb, tainted, removal_only, allow_sweep, depth, partial=None) -> bool:
+    """does every way through `fi` to its normal exit bring the table up to date (see _side_touch_nodes)?"""
+    fa = FA(ck, fi)
+    nodes = _side_touch_nodes(ck, cm, fa, tb, tainted, removal_only, allow_sweep, depth, partial)
+    edge_ok = branch_filter(fa, _side_excuse(tb))
+    ok = bool(nodes) and fa.cfg.exit not in fa.cfg.reach([fa.cfg.entry], removed=nodes, edge_ok=edge_ok)
+    if not ok and nodes and partial is not None:
+        partial.append((fa, _bypass_site(fa, nodes, edge_ok)))
+    return ok
+
+
+def check_side_tables(ck, cm: CacheModel, R):
+    """The memory cache is a write-through cache: whatever it holds about a call is what the store holds.  The cache
+    model knows the resident map and the weak table; every OTHER keyed table from which an answer is taken -- a set of
+    calls known to be absent, a second index of values, ... -- is held to the same two clauses:
+
+      refreshed-on-write   every writable way through StorageBackendBase.memoize brings the table up to date for the
+                           memoized call (in memoize itself or in MemoryCache.put, on EACH of its paths -- the early
+                           exits for a value that does not fit included): what the table said about the call before the
+                           write is not what the store holds afterwards;
+      dropped-on-forget    what the write event enters into the table, every forget_* removes (forget_call under the
+                           call's key, forget_function / forget_everything by a sweep or wholesale).
+    """
+    ck.rule(R, "side tables of the cache follow the store: a keyed table from which an answer is taken is brought up to date for the "
+               "call on every path of the write-through, and what the write-through enters there every forget_* removes", 1)
+    tables = _side_tables(ck, cm)
+    base = ck.repo.cls(BACKEND_BASE)
+    memo = FA(ck, BACKEND_BASE + ".memoize")
+    for tb in tables:
+        who = ", ".join(q.split(".", 1)[-1] for q in tb.readers[:2])
+        # refreshed-on-write
+        tainted = {"memento"} & set(memo.fi.params) or {p_ for p_ in memo.fi.params if p_ != "self"}
+        partial = []
+        nodes = _side_touch_nodes(ck, cm, memo, tb, tainted, False, False, 3, partial)
+        edge_ok = branch_filter(memo, _side_excuse(tb))
+        ok = bool(nodes) and memo.cfg.exit not in memo.cfg.reach([memo.cfg.entry], removed=nodes, edge_ok=edge_ok)
+        (wfa, wsite) = partial[-1] if partial else (memo, _bypass_site(memo, nodes, edge_ok))
+        ck.ob(R, wfa.key(None, "refreshed-on-write:" + tb.label), ok,
+              "memoize brings %s up to date for the memoized call on every writable path" % tb.label if ok else
+              "%s can finish (`%s`) without bringing %s up to date for the call that is being memoized, while %s answers from that table: "
+              "what the table said about the call before the write (not stored / an earlier value) is still the answer after it, so reads do "
+              "not return the last value written" % (wfa.qual.split(".", 1)[-1], A.short(wsite, 40) if wsite is not None else "end of body", tb.label, who),
+              wfa.where(wsite))
+        # dropped-on-forget: only for what the write event enters
+        from .memo import _uses
+        chain = [memo.fi, cm.insert] + [m for m in cm.cls.methods.values() if any(cm.is_self_call(c, m) for c in A.body_calls(cm.insert.node))]
+        positive = any(_uses(FA(ck, fi), tb.t)[1] for fi in chain if tb.mentioned(fi.node))
+        if not positive:
+            continue
+        for name in ("forget_call", "forget_function", "forget_everything"):
+            m = ck.repo.find_method(tb.cls if not tb.cache_owned else base, name) or base.methods.get(name)
+            fa = FA(ck, m)
+            tainted = {p_ for p_ in fa.fi.params if p_ != "self"}
+            partial = []
+            sweep = name != "forget_call"
+            nodes = _side_touch_nodes(ck, cm, fa, tb, tainted, True, sweep, 3, partial)
+            edge_ok = branch_filter(fa, _side_excuse(tb))
+            ok = bool(nodes) and fa.cfg.exit not in fa.cfg.reach([fa.cfg.entry], removed=nodes, edge_ok=edge_ok)
+            if not ok and not partial and tb.cache_owned and name in cm.cls.methods:
+                partial.append((FA(ck, cm.cls.methods[name]), None))
+            (wfa, wsite) = partial[-1] if partial else (fa, _bypass_site(fa, nodes, edge_ok))
+            ck.ob(R, wfa.key(None, "dropped-on-forget:" + tb.label), ok,
+                  "%s removes what the write-through entered into %s" % (name, tb.label) if ok else
+                  "%s can finish without removing from %s what the write-through entered there for the forgotten scope, while %s answers from "
+                  "that table: something forgotten is answered again" % (wfa.qual.split(".", 1)[-1], tb.label, who), wfa.where(wsite))
+    ck.ob(R, "side-tables::scan", True, "answering side tables of the cache / the cached backends: %s" % ([t.label for t in tables] or "none"), "")
+
+
+
 def check(ck):
     from .memo import check_new_memo_tables
     ck.run(check_metadata_marker_reserved, ck, "C05.R4")
@@ -2322,4 +2580,5 @@ def check(ck):
     ck.run(check_cache_reads_own_key, ck, cm, "C05.R4")
     ck.run(check_queries_effect_free, ck, "C05.R3")
     ck.run(check_cache_coherence, ck, cm)
+    ck.run(check_side_tables, ck, cm, "C05.R9")
     ck.run(check_path_scheme, ck)
